@@ -2509,6 +2509,53 @@ def kernel_cross_check(ctx):
     ctx.extra['model_shared_scratch_wrong_runs'] = wrong_shared
 
 
+
+def guard_cross_check(ctx):
+    """wire_215: the recursion-guard machine on random schedules.  No test / test inside the lock: no thread is ever told its
+    name 'depends on itself', every finished thread finds its name cached (the theorem); test outside: counted."""
+    if not ctx.model_ok or ctx.searching:
+        return
+    rng = ctx.rng
+    cases = []
+    for _ in range(ctx.scale(150, 2000)):
+        n = rng.randint(1, 4)
+        wants = [rng.randint(0, 2) for _ in range(n)]
+        lens = [rng.randint(0, 3) for _ in range(3)]
+        r = rng.random()
+        if r < 0.5:
+            sched = [rng.randrange(n) for _ in range(rng.randint(0, 14 * n))]
+        else:
+            sched, cur = [], rng.randrange(n)
+            for _ in range(rng.randint(4, 14 * n)):
+                if rng.random() < 0.2:
+                    cur = rng.randrange(n)
+                sched.append(cur)
+        if rng.random() < 0.5:
+            sched += [t for t in range(n) for _ in range(12)]
+        for pos in (0, 1, 2):
+            cases.append((pos, wants, lens, sched))
+    outs = ctx.model([[215, [p, w, l, s]] for p, w, l, s in cases])
+    raised = 0
+    for (pos, wants, lens, sched), o in zip(cases, outs):
+        if o == [-999]:
+            continue
+        states, busy, cached = o
+        bad = [t for t, st in enumerate(states) if st == 8]
+        done_uncached = [t for t, st in enumerate(states) if st == 7 and wants[t] not in cached]
+        if pos != 2 and (bad or done_uncached):
+            ctx.disagree('what=model_guard;symptom=%s' % ('spurious_keyerror' if bad else 'done_but_not_cached'),
+                         dict(kind='model_guard', pos=pos, wants=wants, lens=lens, schedule=sched), states, None,
+                         'extracted recursion-guard machine: a run with the test inside the lock / without a test contradicts the theorem',
+                         kind='tie')
+        if pos == 2 and bad:
+            raised += 1
+        ctx.note_case(('model_guard', pos, tuple(wants), tuple(lens), tuple(sched)), nontrivial=len(wants) > 1,
+                      sample=dict(pos=pos, threads=len(wants)))
+        ctx.count('model_guard:pos=%d' % pos)
+        ctx.traces_validated += 1
+    ctx.extra['model_guard_outside_spurious_keyerror_runs'] = raised
+
+
 STRESS = dict(n_ants=16, T=32, F=1024, chunks=(4, 128))
 
 
@@ -2613,6 +2660,7 @@ def run(ctx):
     blocks_cross_check(ctx)
     budget_cross_check(ctx)
     kernel_cross_check(ctx)
+    guard_cross_check(ctx)
     _timed(ctx, 'models', t0)
     t1 = time.time()
     for scaled in (False, True):
@@ -2745,6 +2793,9 @@ def replay_case(ctx, case):
         return
     if kind == 'model_kernel':
         kernel_cross_check(ctx)
+        return
+    if kind == 'model_guard':
+        guard_cross_check(ctx)
         return
     if kind in ('store_writes', 'load'):
         try:
